@@ -55,7 +55,7 @@ def fam_flags(tier):
             a += [(k, '') for k, f in (('required', req), ('readonly', ro), ('disabled', dis)) if f]
             kids.append(E('input', tuple(a)))
     for req, ro, dis in itertools.product((False, True), repeat=3):
-        a = tuple((k, '') for k, f in (('required', req), ('readonly', ro), ('disabled', dis)) if f)
+        a = tuple((k, 'false') for k, f in (('required', req), ('readonly', ro), ('disabled', dis)) if f)    # presence counts, not the value
         kids.append(E('textarea', a))
         kids.append(E('select', a, E('option', (), ('t', 'x'))))
     for ce in (None, '', 'true', 'false', 'TRUE', 'plaintext-only', 'junk'):
@@ -69,7 +69,7 @@ def fam_flags(tier):
 
 def fam_default(tier):
     btn = [I(type='submit'), I(type='SUBMIT'), E('button', (('type', 'submit'),)), E('button', (('type', 'button'),)), I(type='button'), I(),
-           I(type='image'), I(type='checkbox', checked=''), I(type='radio', name='n', checked=''), E('button', (('type', 'reset'),))]
+           I(type='image'), I(type='checkbox', checked='0'), I(type='radio', name='n', checked=''), E('button', (('type', 'reset'),))]
     k = 2 if tier == 'quick' else 3
     for n in range(0, k + 1):
         for seq in itertools.product(btn, repeat=n):
@@ -97,7 +97,8 @@ def fam_radio(tier):
         if nm is not None:
             a.append(('name', nm))
         if ch:
-            a.append(('checked', ''))
+            # a boolean attribute counts by presence, whatever its value
+            a.append(('checked', {'n': '', 'm': 'false', '': 'checked', None: 'x'}[nm]))
         return E('input', tuple(a))
     for combo in combos:
         slot = {'A': [], 'B': [], 'none': [], 'iframe': []}
